@@ -149,7 +149,7 @@ FailWrite(k, v, j) ==
 \* handle 2: a fresh non-pruning HexaryTrie(db, r) / at_root(r) on any root ever held
 Adopt2(p) ==
   /\ "second" \in Features /\ ~prune /\ p \in past
-  /\ <<p.r, p.c>> # <<root2, contents2>>
+  /\ ("noop" \in Features \/ <<p.r, p.c>> # <<root2, contents2>>)
   /\ root2' = p.r /\ contents2' = p.c
   /\ res' = OutOk
   /\ Log([a |-> "adopt", i |-> 2, root |-> J(p.r), out |-> JOut(res')])
